@@ -146,7 +146,7 @@ def run(ctx):
                         "Vec push/index/iter().position as documented",
                         "hand-written model Rspirv/Model/Storage.lean tied by the `store`/`storef` channels (differential)"]
     return C.finish(ctx, level="proof", checker_cmd="lake build Rspirv.Props.C19 + #print axioms",
-                    rule="all histories of length <= L over {append, fetch} x 5 equality classes (irreflexive + asymmetric equality), plus seeded long histories on the custom type and on f32 bit patterns with NaNs and signed zeros; implementation only: histories of 66 000 (thorough up to 140 000) values; distinct non-trivial = distinct responses of histories containing a fetch",
+                    rule="all histories of length <= L over {append, fetch} x 7 equality classes (irreflexive for class 0 and classes 1000-1999 - which are still matched by the class below -, asymmetric for classes >= 100), plus seeded long histories on the custom type and on f32 bit patterns with NaNs and signed zeros; implementation only: histories of 66 000 (thorough up to 140 000) values; distinct non-trivial = distinct responses of histories containing a fetch",
                     trusted=["hand model Storage.lean + differential harness (chan/store.rs)"])
 
 
